@@ -33,11 +33,6 @@ def main():
 
     broken = []  # (stage, detail): a proof obligation or tie that no longer checks
 
-    # 0. nothing in the development may declare an axiom / disable a kernel check
-    hits = vlib.scan_forbidden()
-    if hits:
-        broken.append(("forbidden-constructs", hits[:20]))
-
     # 1. translator: regenerate Gen/*.v from /repo's current source (fail-closed)
     if hasattr(mod, "translate"):
         try:
@@ -45,6 +40,12 @@ def main():
                 mod.translate(ctx)
         except Exception as ex:
             broken.append(("translator", "%s: %s" % (type(ex).__name__, ex)))
+
+    # 0. nothing in the development may declare an axiom / disable a kernel check
+    with vlib.Lock():
+        hits = vlib.scan_forbidden(mod.PROPS, getattr(mod, "EXTRACT", pid))
+    if hits:
+        broken.append(("forbidden-constructs", hits[:20]))
 
     # 2. theorems: full .vo build of Props/Cxx.v and its closure + Print Assumptions
     try:
